@@ -276,3 +276,4 @@ def nan_value():
     return float("nan")
 row_twin = row_frame
 row_frame_drop = row_frame
+fill_only_missing = column_has_present = row_frame
